@@ -492,6 +492,10 @@ func c20HeaderBytes(v, data ssa.Value) (offs []int64, ok bool) {
 		case *ssa.ChangeType:
 			walk(y.X, d+1)
 		case *ssa.UnOp:
+			if fw, is := c20ForwardedLoad(y); is && d <= 20 {
+				walk(fw, d+1)
+				return
+			}
 			if y.Op == token.MUL || d > 20 {
 				ok = false
 				return
@@ -531,6 +535,70 @@ func c20HeaderBytes(v, data ssa.Value) (offs []int64, ok bool) {
 	}
 	sort.Slice(offs, func(i, j int) bool { return offs[i] < offs[j] })
 	return
+}
+
+// c20ForwardedLoad: v re-reads a field of a parameter struct (fp.X) that this function stored exactly
+// once, on a point dominating the read, with no call in between that receives the struct: the read
+// is that stored value.
+func c20ForwardedLoad(v ssa.Value) (ssa.Value, bool) {
+	u, ok := v.(*ssa.UnOp)
+	if !ok || u.Op != token.MUL {
+		return nil, false
+	}
+	fa, ok := u.X.(*ssa.FieldAddr)
+	if !ok {
+		return nil, false
+	}
+	if _, isParam := fa.X.(*ssa.Parameter); !isParam {
+		return nil, false
+	}
+	var st *ssa.Store
+	n := 0
+	eachInstr(u.Parent(), func(in ssa.Instruction) {
+		s, is := in.(*ssa.Store)
+		if !is {
+			return
+		}
+		if a, is := s.Addr.(*ssa.FieldAddr); is && a.X == fa.X && a.Field == fa.Field {
+			st = s
+			n++
+		}
+	})
+	if n != 1 {
+		return nil, false
+	}
+	sb, lb := st.Block(), u.Block()
+	if sb == lb {
+		si, li := -1, -1
+		for i, in := range sb.Instrs {
+			if in == ssa.Instruction(st) {
+				si = i
+			}
+			if in == ssa.Instruction(u) {
+				li = i
+			}
+		}
+		if si < 0 || li < 0 || si > li {
+			return nil, false
+		}
+	} else if !sb.Dominates(lb) {
+		return nil, false
+	}
+	// the struct must not escape to a callee that could rewrite the field
+	esc := false
+	eachInstr(u.Parent(), func(in ssa.Instruction) {
+		if ci, is := in.(ssa.CallInstruction); is {
+			for _, a := range ci.Common().Args {
+				if a == fa.X {
+					esc = true
+				}
+			}
+		}
+	})
+	if esc {
+		return nil, false
+	}
+	return st.Val, true
 }
 
 // c20ByteLeaf evaluates byte loads / big- or little-endian reads of data at constant offsets under
@@ -594,7 +662,18 @@ func c20V4Fields(c *Ctx, fn *ssa.Function, fld map[string]*types.Var) {
 				for i, k := range keys {
 					bytes[k] = int64(m >> (8 * uint(i)) & 255)
 				}
-				got, ok := g3Eval(st.Val, c20ByteLeaf(data, bytes))
+				base := c20ByteLeaf(data, bytes)
+				var leaf g3Leaf
+				leaf = func(x ssa.Value) (int64, bool) {
+					if r, ok := base(x); ok {
+						return r, true
+					}
+					if fw, is := c20ForwardedLoad(x); is {
+						return g3Eval(fw, leaf)
+					}
+					return 0, false
+				}
+				got, ok := g3Eval(st.Val, leaf)
 				if !ok {
 					c.Unknown("C20.v4-fields", cons, "expression not evaluable")
 					return
